@@ -9,7 +9,7 @@ ID = "C15"
 RULE = ("Hypothesis-generated (seed, parameter set) pairs for WorkloadGenerator: probability triples from partitions of 10 incl. zeros "
         "and ones, num_pipelines 1-12, num_operators 1-20, waiting_seconds_mean from below one tick to minutes (incl. fractional "
         "seconds), cpu_io_ratio in [0,1], tick rates 1..100000. Deterministic clauses on every arrival event: exactly num_pipelines "
-        "pipelines, ids unique over the run, QUERY => one operator with the query prototype, otherwise a chain of >= 1 single-segment "
+        "pipelines, ids unique over the run (also while a second generator, built after some events of the first, is ticked alongside), QUERY => one operator with the query prototype, otherwise a chain of >= 1 single-segment "
         "operators each a documented prototype and the first the I/O-heaviest, probability 0 never / 1 always. Statistical clauses "
         "with fixed sample sizes and >= 6 sigma margins: class frequencies (>= 2000 pipelines), mean operator count within "
         "num_operators +- (1 + 6 sigma), mean gap within 8 % + 2 ticks of waiting_seconds_mean*tps when that is >= 50 ticks "
